@@ -150,9 +150,17 @@ def derive_decode_summary(cx):
     # the Header aggregate feeding Ok
     p = op_place(s["rv"]["ops"][0])
     hdr = None
-    for d in b.defs_of(p["l"]):
-        if d[0] == "assign" and d[3].get("agg") == "adt" and d[3]["adt"] == "header::Header":
-            hdr = d
+    cur_l = p["l"]
+    for _hop in range(6):
+        nxt_l = None
+        for d in b.defs_of(cur_l):
+            if d[0] == "assign" and d[3].get("agg") == "adt" and d[3]["adt"] == "header::Header":
+                hdr = d
+            elif d[0] == "assign" and "use" in d[3] and op_place(d[3]["use"]) is not None and not op_place(d[3]["use"])["p"] and len(b.defs_of(cur_l)) == 1:
+                nxt_l = op_place(d[3]["use"])["l"]      # built by an inlined reading half and moved here
+        if hdr is not None or nxt_l is None:
+            break
+        cur_l = nxt_l
     if hdr is None:
         cx.R.bad("accept-guards", DECODE, "Ok-aggregate", "cannot find the Header aggregate returned by decode", b.span)
         return None
@@ -648,12 +656,14 @@ def accept_guards(cx, facts, R):
         # region rule: query = buf[48..48+q], body = buf[48+q..48+q+b]
         idx = [(i, t) for i, t in b.calls() if t["callee"]["name"] == "index" and len(t["args"]) == 2]
         rows = []
+        where = {}     # ("idx", bb) / ("split", bb, "0"|"1") -> row: which expression denotes which byte range
         for i, t in idx:
             st = a.state_at(term_pt(b, i))
             rb = a.range_bounds(st, t["args"][1])
             base_arg = a.root_local(op_place(t["args"][0])) == 1
             if rb and base_arg:
                 rows.append((str(rb[1]), str(rb[2])))
+                where[("idx", i)] = rows[-1]
         # payload = &buf[48..E]; (query, body) = payload.split_at(n)  ==  buf[48..48+n], buf[48+n..E]
         for i, t in b.calls():
             if t["callee"]["name"] != "split_at" or len(t["args"]) != 2:
@@ -669,6 +679,9 @@ def accept_guards(cx, facts, R):
                 rows.remove((str(rb[1]), str(rb[2])))
                 rows.append((str(rb[1]), str(rb[1].add(n))))
                 rows.append((str(rb[1].add(n)), str(rb[2])))
+                where.pop(("idx", info[0]), None)
+                where[("split", i, "0")] = rows[-2]
+                where[("split", i, "1")] = rows[-1]
 
         def nm(s_):
             return s_
@@ -676,6 +689,46 @@ def accept_guards(cx, facts, R):
         bd = [r for r in rows if "query_length" in r[0] and r[0].endswith("+ 48") and "body_length" in r[1] and "query_length" in r[1]]
         R.check(len(q) == 1 and len(bd) == 1, "accept-guards", path, "payload-regions",
                 "query/body are not sliced as buf[48..48+q] and buf[48+q..48+q+b]: ranges found %s" % rows, b.span, "ranges %s" % rows)
+        # ... and each range ends up in its own slot of what is returned: the query range as the query, the body range as the body
+        if len(q) == 1 and len(bd) == 1:
+            sym = Sym(b)
+
+            def regions(e, out):
+                if not isinstance(e, tuple):
+                    return out
+                if e and e[0] == "field" and isinstance(e[1], tuple) and e[1] and e[1][0] == "call" and len(e[1]) > 3 and ("split", e[1][3], e[2]) in where:
+                    out.add(where[("split", e[1][3], e[2])])
+                    return out
+                if e and e[0] == "call" and len(e) > 3 and ("idx", e[3]) in where:
+                    out.add(where[("idx", e[3])])
+                    return out
+                for x in e:
+                    if isinstance(x, tuple):
+                        regions(x, out)
+                return out
+            slots = []     # (what, value of the query slot, value of the body slot, span)
+            from analysis.sym import split_eval, split_rows
+            chg = getattr(b, "changed", False)
+            for i, t in calls_new:
+                alts = (split_eval(sym, i, len(b.blocks[i]["stmts"]), lambda v_: (v_.op(t["args"][1]), v_.op(t["args"][2]))) if chg else None) \
+                    or [({}, (sym.op(t["args"][1]), sym.op(t["args"][2])))]
+                for _, (qv_, bv_) in alts:
+                    slots.append(("Message::new", qv_, bv_, t.get("span")))
+            for i, j, s_ in oks:
+                for _, v in ((split_rows(sym, i, j, s_["rv"]) if chg else None) or [({}, sym.rvalue(s_["rv"]))]):
+                  if True:
+                    inner = dict(v[3]).get("0") if v[0] == "agg" else None
+                    if inner is not None and inner[0] == "agg" and inner[3] and {"query", "body"} <= set(dict(inner[3])):
+                        d_ = dict(inner[3])
+                        slots.append(("Ok value", d_["query"], d_["body"], s_.get("span")))
+                    elif inner is not None and not calls_new:
+                        slots.append(("Ok value", ("field", inner, "query"), ("field", inner, "body"), s_.get("span")))
+            R.floor("accept-guards", len(slots), 1, "returned query/body slots of " + path)
+            for what_, qv, bv, span in slots:
+                rq, rb_ = regions(qv, set()), regions(bv, set())
+                R.check(rq == {q[0]} and rb_ == {bd[0]}, "accept-guards", path, "payload-slots",
+                        "%s of %s does not carry buf[48..48+q] as the query and buf[48+q..48+q+b] as the body: the query slot holds range(s) %s, the body slot %s" % (
+                            what_, path.split("::")[-2] + "::from_slice", sorted(rq), sorted(rb_)), span, "query <- %s, body <- %s" % (q[0], bd[0]))
     # exact variants: trailing bytes rejected
     for path, inner in (("message::Message::from_slice_exact", "message::Message::from_slice"),
                         ("message::MessageView::<'a>::from_slice_exact", "message::MessageView::<'a>::from_slice")):
@@ -810,6 +863,12 @@ def stream_fills_frame(cx, facts, R):
                     # (guards are spelled with temporaries resolved by reaching definitions; spell the vector the same way too)
                     from analysis.sym import SymAt
                     vexprs = {vexpr, render(SymAt(sym, i, len(b.blocks[i]["stmts"]), named=False).op(t["args"][k]))}
+                    if getattr(b, "changed", False):
+                        # the vector may arrive through a value built on several paths (a local closure or helper returning
+                        # Ok(segment), spliced in): one spelling per combination of reaching definitions
+                        from analysis.sym import split_eval
+                        for _, v_ in split_eval(sym, i, len(b.blocks[i]["stmts"]), lambda w_: w_.op(t["args"][k])) or []:
+                            vexprs.add(render(v_))
                     vp = op_place(t["args"][k])
                     vl = a.root_local(vp) if vp is not None else None
                     defs = b.defs_of(vl) if vl is not None else []
